@@ -18,6 +18,8 @@ Line-protocol driver for C09. Ops (see harness/cmd/c09/main.go for the Go side):
   mm <id> <pubkey>       MarshalMember             -> err | <hex>
   mu <hex>               UnMarshalMember           -> err | ok <id> <pubkey>
   jt <time>              json.Marshal(time)        -> err | <hex>
+  ret <hex>              retention: the value returned earlier (bytes of a Marshal, or the token rendering of a
+                         parsed object) as it reads now, after later calls -> <hex> (a value does not change)
   jr <hex>               RequestIds JSON decode    -> <reqids>
   jq <hex>               json.Marshal(string)      -> <hex>
   ju <hex>               json.Unmarshal into a string (input starts with a quote) -> err | ok <hex>
@@ -305,6 +307,7 @@ def step (_ : Unit) (line : String) : Unit × String :=
              | _ => toString gs.length ++ " " ++ " ".intercalate (gs.map sGroup)) (unmarshalGroups bs)
          else if op == "gu" then
            showOutcome (fun g => sGroup g ++ " " ++ toHex (groupHeaderGenHash g.header)) (unmarshalGroup bs)
+         else if op == "ret" then toHex bs
          else if op == "jr" then sReqIds (decReqIds bs)
          else if op == "jq" then toHex (jsonQuote bs)
          else if op == "ju" then
